@@ -372,7 +372,42 @@ def u_error_change(root):
     return eng
 
 
+
+def u_pointwise_version(root):
+    """the optimised pointwise variant a fit switches to for a diagonal covariance is the SAME cost: same constraint flag and the same determinant flag the cost function itself evaluates"""
+    schema = {"CostFunction": {"_cost_function_handle": PYOBJ, "_add_constraint_cost": BOOL, "_add_determinant_cost": BOOL, "_add_determinant_cost_ga": BOOL, "_fail_on_no_matrix": BOOL}}
+    eng = engine(root, FILES, schema, [])
+    made = []
+
+    def ctor(cls):
+        def f(e, st, a, kw, n):
+            made.append((cls, dict(kw)))
+            return e.alloc(st, "pointwise_cost", cls)
+        return f
+    for cls, det_field, handles in (("CostFunction_GaussApproximation", "_add_determinant_cost_ga", ("gaussian_approximation_covariance", "gaussian_approximation_pointwise_errors")),
+                                    ("CostFunction_Chi2", "_add_determinant_cost", ("chi2_covariance", "chi2_covariance_fast", "chi2_pointwise_errors", "chi2_no_errors"))):
+        eng.lib["class:" + cls] = ctor(cls)
+        for h in handles:
+            c = Contract(cls, "pointwise_version", "getter")
+
+            def post(vw, cls=cls, det_field=det_field, h=h):
+                has_variant = h in ("gaussian_approximation_covariance", "chi2_covariance")
+                if not has_variant:
+                    return [("no pointwise variant for this handle", z3.BoolVal(isinstance(vw.result, VNone)))]
+                if not made or made[-1][0] != cls:
+                    return [("a pointwise instance of the same class is built", z3.BoolVal(False))]
+                kw = made[-1][1]
+                ok = isinstance(kw.get("errors_to_use"), VStr) and kw["errors_to_use"].s == "pointwise" and isinstance(vw.result, VRef)
+                return [("a pointwise instance of the same class is built", z3.BoolVal(bool(ok))),
+                        ("same constraint flag", kw["add_constraint_cost"].e == vw.f(vw.pre, vw.self, "_add_constraint_cost").e if "add_constraint_cost" in kw else z3.BoolVal(False)),
+                        ("same log-determinant flag as the one this cost function evaluates (" + det_field + ")", kw["add_determinant_cost"].e == vw.f(vw.pre, vw.self, det_field).e if "add_determinant_cost" in kw else z3.BoolVal(False))]
+            c.ensures.append(post)
+            made.clear()
+            eng.verify(cls, "pointwise_version", "getter", lambda e, st, me_, h=h: (e.write_field(st, me_, "_cost_function_handle", VBound(me_, h)), {})[1], contract=c, tag=f"[{h}]")
+    return eng
+
+
 def units(root):
     return [Unit("CostFunction.__call__ composition", u_call), Unit("CostFunction_Chi2._chi2", u_chi2), Unit("log-determinant terms", u_logdet), Unit("negative log-likelihoods", u_nll),
             Unit("parameter constraint costs", u_constraints), Unit("XYFit x->y projection", u_projection), Unit("total = model + data graph nodes", u_total_lambdas),
-            Unit("error change reaches the cost (callback wiring, implicit chi2 switch)", u_error_change)]
+            Unit("error change reaches the cost (callback wiring, implicit chi2 switch)", u_error_change), Unit("pointwise_version keeps the cost", u_pointwise_version)]
